@@ -375,3 +375,33 @@ Proof. intros s Hinv Hroot. exact (get_crawled_pages_spec s Hinv Hroot). Qed.
 Print Assumptions py_traph_page_nodes_spec.
 Print Assumptions py_traph_get_webentity_pages_spec.
 Print Assumptions py_traph_get_webentity_crawled_pages_spec.
+
+(* ---- non-vacuity: the translated code run on the bytes of the trie file of the concrete state PropsEx.exs ---- *)
+From Traph Require PropsEx.
+Definition ex_ps : list bytes := [PropsEx.ex_px; firstn 17 PropsEx.ex_px].
+Definition ex_ps_absent : list bytes := [PropsEx.ex_px; PropsEx.ex_px ++ [112; 58; 122; 124]].
+Definition res_opt {A} (r : res A) : option A := match r with ROk a => Some a | _ => None end.
+
+(* webentity 3 with its prefix and a higher prefix of it: three pages, one of them crawled *)
+Example ex_page_nodes :
+  option_map (fun x => map (fun it => (snd it, nd_block (fst it))) (fst x)) (py_traph_webentity_page_nodes_iter ex_sg 3 ex_ps)
+  = res_opt (match we_page_nodes None ex_ps PropsEx.exs with
+             | ROk l => ROk (map (fun m => (fst m, Some (addr (snd m)))) l) | RRefused => RRefused | RCrash => RCrash end) /\
+  option_map (fun x => length (fst x)) (py_traph_webentity_page_nodes_iter ex_sg 3 ex_ps) = Some 3%nat.
+Proof. vm_compute. split; reflexivity. Qed.
+Example ex_pages :
+  option_map snd (py_traph_get_webentity_pages ex_sg 3 ex_ps) = res_opt (webentity_pages ex_ps PropsEx.exs) /\
+  option_map (fun x => length (snd x)) (py_traph_get_webentity_pages ex_sg 3 ex_ps) = Some 3%nat /\
+  option_map (fun x => map snd (snd x)) (py_traph_get_webentity_pages ex_sg 3 ex_ps) = Some [false; true; false].
+Proof. vm_compute. repeat split; reflexivity. Qed.
+Example ex_crawled_pages :
+  option_map snd (py_traph_get_webentity_crawled_pages ex_sg 3 ex_ps) = res_opt (webentity_crawled_pages ex_ps PropsEx.exs) /\
+  option_map (fun x => length (snd x)) (py_traph_get_webentity_crawled_pages ex_sg 3 ex_ps) = Some 1%nat.
+Proof. vm_compute. split; reflexivity. Qed.
+(* a list one prefix of which is not in the trie, whatever its position: TraphException / refusal *)
+Example ex_pages_absent :
+  py_traph_get_webentity_pages ex_sg 3 ex_ps_absent = None /\ webentity_pages ex_ps_absent PropsEx.exs = RRefused /\
+  py_traph_get_webentity_pages ex_sg 3 (rev ex_ps_absent) = None /\ webentity_pages (rev ex_ps_absent) PropsEx.exs = RRefused /\
+  py_traph_get_webentity_crawled_pages ex_sg 3 ex_ps_absent = None /\ webentity_crawled_pages ex_ps_absent PropsEx.exs = RRefused /\
+  py_traph_webentity_page_nodes_iter ex_sg 3 ex_ps_absent = None /\ we_page_nodes None ex_ps_absent PropsEx.exs = RRefused.
+Proof. vm_compute. repeat split; reflexivity. Qed.
